@@ -35,6 +35,8 @@ func init() {
 				Rule: "Log.roots/rootsPEM only under rootsMu; swapped only after the _roots.pem upload succeeded; validation and get-roots read through rootPool()", Run: c09f},
 			{ID: "C09.g", Title: "REJECT-STATUS", Template: "T5", MinInst: 5,
 				Rule: "every rejection before admission returns a 4xx status, except the two internal failures (body read, TBS construction) which return 500", Run: c09g},
+			{ID: "C09.i", Title: "REJECT-INVENTORY", Template: "T2+T4", MinInst: 1,
+				Rule: "every return of the submission handler that precedes admission lies behind a refusing outcome of a recognised validator (body read/parse, empty or short chain, ValidateChain, IsPrecertificate, BuildPrecertTBS, the endpoint's type check): no other condition refuses a chain", Run: c09i},
 		},
 	})
 }
@@ -772,4 +774,99 @@ func (f *Func) unguardedSites(sites []Site, safe map[Edge]bool) []Site {
 		}
 	}
 	return out
+}
+
+// ---------------------------------------------------------------------------
+// C09.i REJECT-INVENTORY: a submission is refused only for a reason the
+// statement lists.
+
+func c09i(c *Ctx) {
+	f := c.Fn("ctlog.(*Log).addChainOrPreChain")
+	if f == nil {
+		return
+	}
+	info := f.Info()
+	g := f.Graph()
+	add := f.Calls(Callee{pkgCtlog, "Log", "addLeafToPool"})
+	if len(add) != 1 {
+		c.Unk(f.Name, "addLeafToPool call not found")
+		return
+	}
+	// the recognised refusing outcomes
+	reasons := []struct {
+		name string
+		spec Callee
+	}{
+		{"the body cannot be read", Callee{"io", "", "ReadAll"}},
+		{"the body is not the JSON request", Callee{"encoding/json", "", "Unmarshal"}},
+		{"the chain does not validate (roots, EKU, NotAfter window)", Callee{pkgCtfe, "", "ValidateChain"}},
+		{"the precertificate poison is malformed", Callee{pkgCtfe, "", "IsPrecertificate"}},
+		{"the TBS cannot be rebuilt", Callee{pkgCTx509, "", "BuildPrecertTBS"}},
+	}
+	refuse := map[Edge]bool{}
+	found := 0
+	for _, r := range reasons {
+		ss := f.Calls(r.spec)
+		if len(ss) == 0 {
+			c.Unk(f.Name+" "+r.name, "validator call not found: "+r.spec.String())
+			continue
+		}
+		for _, s := range ss {
+			_, nn, _, ok := OutcomeEdges(s)
+			if !ok {
+				continue
+			}
+			found++
+			for e := range nn {
+				refuse[e] = true
+			}
+		}
+	}
+	// the endpoint/type check: a call through the function-typed parameter
+	if p := f.soleFuncParam(); p != nil {
+		for _, s := range f.Find(func(n ast.Node) bool {
+			call, ok := n.(*ast.CallExpr)
+			return ok && objOf(info, call.Fun) == p
+		}) {
+			if _, nn, _, ok := OutcomeEdges(s); ok {
+				found++
+				for e := range nn {
+					refuse[e] = true
+				}
+			}
+		}
+	}
+	// chain too short for its shape: len(<chain>) == 0, < 2, < 3
+	isLen := func(e ast.Expr) bool {
+		call, ok := ast.Unparen(e).(*ast.CallExpr)
+		return ok && isBuiltinCall(info, call, "len") && len(call.Args) == 1
+	}
+	var bound int64
+	isSmall := func(e ast.Expr) bool {
+		v, ok := constInt(info, e)
+		if ok {
+			bound = v
+		}
+		return ok && v >= 0 && v <= 3
+	}
+	for e := range g.EdgesImplying(func(at Atom) bool {
+		rel, ok := cmpRel(at, isLen, isSmall)
+		if !ok {
+			return false
+		}
+		return rel == relLT || (rel == relEQ && bound == 0) || (rel == (relLT|relEQ) && bound <= 2)
+	}) {
+		refuse[e] = true
+	}
+	rets := g.ReturnsFrom(g.Entry(), Cut{Edges: refuse, Stop: func(p Point, _ ast.Node) bool { return p == add[0].P }})
+	all := g.ReturnsFrom(g.Entry(), Cut{Stop: func(p Point, _ ast.Node) bool { return p == add[0].P }})
+	bad := false
+	for _, r := range rets {
+		bad = true
+		c.Bad(fmt.Sprintf("%s refusal at %s", f.Name, f.Pos(r)), f.Pos(r), "a submission can be refused before admission for a reason that is none of: unreadable/malformed body, empty or too-short chain, ValidateChain failure, malformed precertificate, TBS reconstruction failure, endpoint/type mismatch - the statement accepts a chain *exactly* when those pass")
+	}
+	if !bad {
+		c.add(Result{Instance: f.Name + " refusals", Verdict: Discharged, Evals: len(all), Sites: []string{f.Pos(f.Decl)},
+			Detail: fmt.Sprintf("all %d pre-admission returns lie behind a refusing outcome of one of %d recognised validators or a chain-length test", len(all), found)})
+	}
 }
